@@ -242,17 +242,32 @@ class Conn:
 def run_pieces(stream, cuts, mode="now"):
     """Deliver stream up to each cut position in turn (stop delivering once the server has asked to close,
     as a real transport does).  Returns the observation after each cut."""
-    plan = (lambda n: dict(kind=mode, nd=0, style="cl", pre=0))
+    plan = (lambda n: dict(kind="now" if mode == "now" else "later", nd=0, style="cl", pre=0))
     c = Conn(plan=plan, record="c18")
     obs = []
     off = 0
-    for n in cuts:
-        if n > off and c.can_deliver():
-            x = c.deliver(stream[off:n])
-            if mode == "later":
-                c.quiesce()
+    held = b""          # bytes the transport holds back while the channel has paused it (delayed, never dropped)
+
+    def push():
+        nonlocal held
+        if held and c.can_deliver():
+            data, held = held, b""
+            x = c.deliver(data)
             if x != "ok":
                 c.out.append({"k": "exc", "x": x})
+            return True
+        return False
+
+    for n in cuts:
+        if n > off and not c.transport.disconnecting:
+            held += stream[off:n]
+            push()
+            # "later": pending requests finish right after every delivery call; "end": only after the last one
+            if mode == "later" or (mode == "end" and n == cuts[-1]):
+                for _ in range(50):
+                    c.quiesce()
+                    if not push():
+                        break
         off = max(off, n)
         o = c.observation()
         excs = [y["x"] for y in c.out if y["k"] == "exc"]
@@ -494,7 +509,9 @@ def mutated_requests(thorough=False):
         "chunk-size-neg": b"-3\r\nabc\r\n0\r\n\r\n", "chunk-size-plus": b"+3\r\nabc\r\n0\r\n\r\n", "chunk-size-leading-sp": b" 3\r\nabc\r\n0\r\n\r\n",
         "chunk-size-trailing-sp": b"3 \r\nabc\r\n0\r\n\r\n", "chunk-size-bws-ext": b"3 ;x\r\nabc\r\n0\r\n\r\n", "chunk-size-upper": b"A\r\n0123456789\r\n0\r\n\r\n",
         "chunk-size-leading-zeros": b"0003\r\nabc\r\n0\r\n\r\n", "chunk-data-too-long": b"3\r\nabcd\r\n0\r\n\r\n", "chunk-data-too-short": b"3\r\nab\r\n0\r\n\r\n",
-        "chunk-data-no-crlf": b"3\r\nabc0\r\n\r\n", "chunk-data-lf-only": b"3\r\nabc\n0\r\n\r\n", "chunk-data-cr-only": b"3\r\nabc\r0\r\n\r\n",
+        "chunk-data-no-crlf": b"3\r\nabc0\r\n\r\n", "chunk-data-two-junk-octets": b"3\r\nabcXY0\r\n\r\n",
+        "chunk-data-lf-lf": b"3\r\nabc\n\n0\r\n\r\n", "chunk-data-cr-cr": b"3\r\nabc\r\r0\r\n\r\n", "chunk-data-lf-cr": b"3\r\nabc\n\r0\r\n\r\n",
+        "chunk-data-junk-then-chunk": b"3\r\nabc--2\r\nde\r\n0\r\n\r\n", "chunk-data-lf-only": b"3\r\nabc\n0\r\n\r\n", "chunk-data-cr-only": b"3\r\nabc\r0\r\n\r\n",
         "chunk-size-lf-only": b"3\nabc\r\n0\r\n\r\n", "chunk-last-missing": b"3\r\nabc\r\n", "chunk-trailer": b"3\r\nabc\r\n0\r\nT: v\r\n\r\n",
         "chunk-trailer-no-colon": b"3\r\nabc\r\n0\r\ngarbage\r\n\r\n", "chunk-no-final-crlf": b"3\r\nabc\r\n0\r\n", "chunk-ext-empty": b"3;\r\nabc\r\n0\r\n\r\n",
         "chunk-ext-token": b"3;a=b\r\nabc\r\n0\r\n\r\n", "chunk-ext-quoted": b'3;a="b c"\r\nabc\r\n0\r\n\r\n', "chunk-body-looks-like-request": b"%x\r\n" % len(SMUGGLE) + SMUGGLE + b"\r\n0\r\n\r\n",
